@@ -228,6 +228,17 @@ def _fcb_payload(dev: str, rev: str, mt: str, name: str, form: str):
         if data[:4] != b"FCFB" or len(data) != size:
             raise SkipCase()
         return path, data, ["fcb:yaml", "form:yaml"]
+    if form == "swapped":
+        # the byte-swapped storage order (tag CFBF) is accepted as an FCB block: it stays as supplied
+        data = bytes(b for i in range(0, len(default), 2) for b in (default[i + 1], default[i]))
+        path, _ = _cached_file(("fcb_swapped", dev, rev, mt), lambda: data)
+        return path, data, ["fcb:swapped"]
+    if form.startswith("random"):
+        # a pre-prepared block with the tag and arbitrary register content
+        k = int(form[6:] or 0) % 4
+        data = b"FCFB" + _stretch(_h("c14fcb", dev, rev, mt, str(k)), size - 4)
+        path, _ = _cached_file(("fcb_random", dev, rev, mt, k), lambda: data)
+        return path, data, ["fcb:random"]
     path, _ = _cached_file(("fcb_bin", dev, rev, mt), obj_bytes)
     return path, default, labels + ["fcb:bin"]
 
@@ -300,13 +311,13 @@ def _mbi_payload(dev: str, rev: str, variant: int):
 
 
 def _ahab_payload(dev: str, rev: str, variant: int):
-    v = variant % 2
+    v = variant % 3  # 8704 / 9728 / 9216 B: the last one ends on the 1 KiB alignment of the floating container behind it
 
     def build():
         from spsdk.image.ahab.ahab_image import AHABImage
         from spsdk.utils.schema_validator import check_config
 
-        app = _stretch(b"c14ahab%d" % v, 512 if v == 0 else 1300)
+        app = _stretch(b"c14ahab%d" % v, (512, 1300, 1024)[v])
         app_path = os.path.join(_workdir(), "ahab_app_%d.bin" % v)
         with open(app_path, "wb") as f:
             f.write(app)
@@ -315,14 +326,14 @@ def _ahab_payload(dev: str, rev: str, variant: int):
         cfg = {"family": dev, "revision": rev, "target_memory": "standard", "output": "ahab.bin", "containers": [{"container": {
             "srk_set": "none", "fuse_version": 0, "sw_version": 0, "images": [{
                 "image_path": app_path, "image_offset": 0x2000, "load_address": 0x1FFE0000, "entry_point": 0x1FFE0000,
-                "image_type": "executable", "core_id": core, "is_encrypted": False, "hash_type": "sha256" if v == 0 else "sha384"}]}}]}
+                "image_type": "executable", "core_id": core, "is_encrypted": False, "hash_type": "sha256" if v != 1 else "sha384"}]}}]}
         check_config(cfg, schemas, search_paths=[_workdir()])
         img = AHABImage.load_from_config(cfg, search_paths=[_workdir()])
         img.update_fields()
         return img.export()
 
     path, data = _build(lambda: _cached_file(("ahab", dev, rev, v), build), "ahab")
-    return path, data, ["ahab:v%d" % v]
+    return path, data, ["ahab:v%d" % v] + (["ahab:ends_aligned"] if len(data) % 1024 == 0 else [])
 
 
 def _first_enum(schemas, key: str):
@@ -672,7 +683,7 @@ def _nominal_segs(tab: L.Table, salt: bytes, only_app: bool = False) -> dict:
         elif name in L.RAW_SEGMENTS:
             segs[name] = {"n": L.NOMINAL_SIZE[name], "seed": (r + j) & 0xFFFFFFFF}
         elif name.startswith("fcb"):
-            segs[name] = {"form": "bin"}
+            segs[name] = {"form": ("bin", "bin", "swapped", "random0")[(r >> 11) % 4]}
         elif name == "xmcd":
             segs[name] = {"form": "bin", "sub": r % 8}
     return segs
@@ -802,7 +813,7 @@ def _layout_strategy():
             if name in L.RAW_SEGMENTS:
                 segs[name] = {"n": draw(_size_strategy(L.NOMINAL_SIZE[name], tab.gap(name))), "seed": draw(st.integers(0, (1 << 32) - 1))}
             elif name.startswith("fcb"):
-                segs[name] = {"form": draw(st.sampled_from(["bin", "bin", "yaml"]))}
+                segs[name] = {"form": draw(st.sampled_from(["bin", "bin", "yaml", "swapped", "random0", "random1", "random2", "random3"]))}
             elif name == "xmcd":
                 segs[name] = {"form": draw(st.sampled_from(["bin", "bin", "yaml"])), "sub": draw(st.integers(0, 7))}
             else:
